@@ -8,16 +8,22 @@
 //     UtcDateTime::{new, is_leap_year}                   (re-proved here with the contract of unit c29_calendar)
 //     struct UtcDateTime, enum DateTimeError, enum ParseUtcDateTimeError, const LEAP_YEAR_DAYS_IN_MONTHS
 // Strings: this vstd models `str` as Seq<char> (`s@`) with `s.spec_bytes() == encode_utf8(s@)` and ALREADY
-//   specifies `str::chars`, `Iterator::collect::<Vec<char>>`, `str::is_ascii` (== is_ascii_chars(s@)), `Vec` indexing
-//   and `Index<Range<usize>> for str`, whose PRECONDITION is `vstd::string::str_slice_in_bounds`:
-//       start <= end <= byte length  &&  is_char_boundary(bytes, start)  &&  is_char_boundary(bytes, end).
+//   specifies `str::chars`, `Iterator::collect::<Vec<char>>` (chars@ == s@), `str::is_ascii` (== is_ascii_chars(s@)),
+//   `Vec` indexing, and the PRECONDITION of `s[a..b]` on a str (`IndexSpec::index_req` for str ==
+//   `vstd::string::str_slice_in_bounds`):
+//       a <= b <= byte length  &&  is_char_boundary(bytes, a)  &&  is_char_boundary(bytes, b).
 //   That precondition is the obligation the historical defect violated (20 characters, one of them multi-byte:
-//   byte offset 19 falls inside a character). It is discharged here from `s.is_ascii()` by lemma_ascii_layout,
-//   which uses only PROVED vstd lemmas (encode_utf8_valid_utf8, is_ascii_chars_encode_utf8,
+//   byte offset 19 falls inside a character; see examples_rejected). It is discharged here from `s.is_ascii()`
+//   by lemma_ascii_layout, which uses only PROVED vstd lemmas (encode_utf8_valid_utf8, is_ascii_chars_encode_utf8,
 //   is_char_boundary_iff_not_is_continuation_byte, is_char_boundary_start_end_of_seq, encode_utf8_decode_utf8).
-// Assumed std contracts (shims/str_parse_c29.rs): `str::parse::<F>` is total and, for u8/u32, a function of
-//   the text (uninterpreted `spec_parse`); digit strings parse to their decimal value (corollary only).
-//   shims/try_from.rs: the error produced by `?` is a result of the `From` impl.
+//   Removing `s.is_ascii() &&` from /repo makes from_str FAIL on exactly these six preconditions (mutants.txt).
+// Assumed std contracts (shims/str_parse_c29.rs):
+//   (I1) the VALUE of `s[a..b]` is what vstd specifies for `SliceIndex::<str>::index` (bytes[a..b]);
+//   (P1) `str::parse::<F>` is total (returns a Result, no panic); (P2) for F = u8 / u32 it is a function of the
+//   text (uninterpreted `spec_parse`); (P3) 1..=9 ASCII digits whose value fits parse to that value -- P3 is
+//   used by the print/parse corollary only; `ParseIntError` is an opaque type; `FromStr` is declared as an
+//   external trait (no contract on the trait).
+//   shims/try_from.rs: the error produced by `?` is a result of the `From` impl (here: the two real impls).
 // Not in this unit: `impl Display for UtcDateTime` (`write!` / core::fmt): the corollary below is stated on
 //   the ORACLE text `iso_text(dt)` of the documented form, not on the output of `fmt`.
 use vstd::prelude::*;
@@ -211,7 +217,7 @@ pub mod unit {
     // ------------------------------------------------------------------------------------------
     pub open spec fn digit(k: int) -> char { ((48 + k) as u8) as char }
     pub open spec fn dec2(n: int) -> Seq<char> { seq![digit(n / 10), digit(n % 10)] }
-    pub open spec fn dec4(n: int) -> Seq<char> { seq![digit(n / 1000), digit(n / 100 % 10), digit(n / 10 % 10), digit(n % 10)] }
+    pub open spec fn dec4(n: int) -> Seq<char> { seq![digit(n / 10 / 10 / 10), digit(n / 10 / 10 % 10), digit(n / 10 % 10), digit(n % 10)] }
     pub open spec fn iso_text(dt: UtcDateTime) -> Seq<char> {
         dec4(dt.year as int) + seq!['-'] + dec2(dt.month as int) + seq!['-'] + dec2(dt.day_of_month as int) + seq!['T']
             + dec2(dt.hour as int) + seq![':'] + dec2(dt.minute as int) + seq![':'] + dec2(dt.second as int) + seq!['Z']
@@ -220,28 +226,54 @@ pub mod unit {
         requires 0 <= k <= 9
         ensures '0' <= digit(k) && digit(k) <= '9', digit(k) as u32 - '0' as u32 == k, 0 <= digit(k) as u32 <= 127
     {}
+    /// value of a 2- / 4-character digit string, stated on the DIGITS (no division in this query)
+    pub proof fn lemma_dec_val2(a: int, b: int)
+        requires 0 <= a <= 9, 0 <= b <= 9
+        ensures dec_val(seq![digit(a), digit(b)]) == 10 * a + b
+    {
+        let s = seq![digit(a), digit(b)];
+        lemma_digit(a); lemma_digit(b);
+        let s1 = s.drop_last();
+        assert(s1 =~= seq![digit(a)]);
+        assert(s1.drop_last() =~= Seq::<char>::empty());
+        assert(dec_val(s1.drop_last()) == 0);
+        assert(dec_val(s1) == a);
+        assert(dec_val(s) == 10 * dec_val(s1) + b);
+    }
+    pub proof fn lemma_dec_val4(a: int, b: int, c: int, d: int)
+        requires 0 <= a <= 9, 0 <= b <= 9, 0 <= c <= 9, 0 <= d <= 9
+        ensures dec_val(seq![digit(a), digit(b), digit(c), digit(d)]) == 1000 * a + 100 * b + 10 * c + d
+    {
+        let s = seq![digit(a), digit(b), digit(c), digit(d)];
+        lemma_digit(c); lemma_digit(d);
+        let s3 = s.drop_last(); let s2 = s3.drop_last();
+        assert(s3 =~= seq![digit(a), digit(b), digit(c)]);
+        assert(s2 =~= seq![digit(a), digit(b)]);
+        lemma_dec_val2(a, b);
+        assert(dec_val(s3) == 10 * dec_val(s2) + c);
+        assert(dec_val(s) == 10 * dec_val(s3) + d);
+    }
     pub proof fn lemma_dec2(n: int)
         requires 0 <= n <= 99
         ensures dec2(n).len() == 2, all_digits(dec2(n)), dec_val(dec2(n)) == n, is_ascii_chars(dec2(n))
     {
-        let s = dec2(n);
-        lemma_digit(n / 10); lemma_digit(n % 10);
-        assert(s.drop_last() =~= seq![digit(n / 10)]);
-        assert(s.drop_last().drop_last() =~= Seq::<char>::empty());
-        reveal_with_fuel(dec_val, 4);
+        let (a, b) = (n / 10, n % 10);
+        assert(0 <= a <= 9 && 0 <= b <= 9 && n == 10 * a + b);
+        lemma_digit(a); lemma_digit(b);
+        lemma_dec_val2(a, b);
     }
     pub proof fn lemma_dec4(n: int)
         requires 0 <= n <= 9999
         ensures dec4(n).len() == 4, all_digits(dec4(n)), dec_val(dec4(n)) == n, is_ascii_chars(dec4(n))
     {
-        let s = dec4(n);
-        lemma_digit(n / 1000); lemma_digit(n / 100 % 10); lemma_digit(n / 10 % 10); lemma_digit(n % 10);
-        let s3 = s.drop_last(); let s2 = s3.drop_last(); let s1 = s2.drop_last();
-        assert(s3 =~= seq![digit(n / 1000), digit(n / 100 % 10), digit(n / 10 % 10)]);
-        assert(s2 =~= seq![digit(n / 1000), digit(n / 100 % 10)]);
-        assert(s1 =~= seq![digit(n / 1000)]);
-        assert(s1.drop_last() =~= Seq::<char>::empty());
-        reveal_with_fuel(dec_val, 6);
+        let q1 = n / 10; let q2 = q1 / 10;
+        let (a, b, c, d) = (q2 / 10, q2 % 10, q1 % 10, n % 10);
+        assert(n == 10 * q1 + d && 0 <= d <= 9 && 0 <= q1 <= 999);
+        assert(q1 == 10 * q2 + c && 0 <= c <= 9 && 0 <= q2 <= 99);
+        assert(q2 == 10 * a + b && 0 <= b <= 9 && 0 <= a <= 9);
+        assert(n == 1000 * a + 100 * b + 10 * c + d);
+        lemma_digit(a); lemma_digit(b); lemma_digit(c); lemma_digit(d);
+        lemma_dec_val4(a, b, c, d);
     }
     pub proof fn theorem_parse_of_iso_text(dt: UtcDateTime)
         requires valid(dt), dt.year <= 9999
